@@ -18,6 +18,7 @@ mod lerp;
 mod bezier;
 mod term;
 mod vecs;
+mod vconv;
 
 fn main() {
     let args: Vec<String> = std::env::args().collect();
@@ -40,6 +41,7 @@ fn main() {
         ("drive", "bezier") => bezier::drive_bezier(rest),
         ("drive", "bezext") => bezier::drive_bezext(rest),
         ("drive", "bezlen") => bezier::drive_bezlen(rest),
+        ("drive", "vconv") => vconv::drive_vconv(rest),
         ("drive", "vecops") => vecs::drive_vecops(rest),
         ("drive", "vecfold") => vecs::drive_vecfold(rest),
         ("drive", "vecreal") => vecs::drive_vecreal(rest),
